@@ -10,8 +10,13 @@ open TE TE.Window TE.Spec.Window
 
 variable {α : Type}
 
--- lets `decide` compare model outcomes (used by the witness theorems)
-deriving instance DecidableEq for Except
+/-- lets `decide` compare model outcomes (used by the witness theorems). -/
+instance : DecidableEq (Except Err AOut) := fun a b =>
+  match a, b with
+  | .ok x, .ok y => if h : x = y then isTrue (by rw [h]) else isFalse (by intro e; cases e; exact h rfl)
+  | .error x, .error y => if h : x = y then isTrue (by rw [h]) else isFalse (by intro e; cases e; exact h rfl)
+  | .ok _, .error _ => isFalse (by intro e; cases e)
+  | .error _, .ok _ => isFalse (by intro e; cases e)
 
 /-! ### the three branches on plain lists -/
 
